@@ -5,6 +5,7 @@ From Coquelicot Require Import Complex.
 From OV Require Import Base.Panic Base.Arith gen.Params Model.Roots Proofs.RootsRound Proofs.RootsRoundCubic.
 Import ListNotations.
 Local Open Scope R_scope.
+Import RRN. Import RCN.
 
 (* the values the model computes in the Cardano branch *)
 Definition c_uhat (O : RoundOps) : C := (Ropp (/ 2), o_rdiv O (o_rsqrt O (INR 3)) (INR 2)).
